@@ -134,10 +134,13 @@ def c02_registry(prog):
         probs = []
         if cls.code != code:
             probs.append(f"registered under {code} but class code is {cls.code}")
-        for r in (0, 1):
-            hdr = base.MessageHeader(command_flags=0x80 if r else 0, command_code=code)
+        for flags in range(256):
+            r = flags >> 7
+            hdr = base.MessageHeader(command_flags=flags, command_code=code)
             t = cls.type_factory(hdr)
             if t is None:
+                if any(s.__name__.endswith(("Request", "Answer")) for s in cls.__subclasses__()):
+                    probs.append(f"type_factory(flags={flags:#x}) returns None although Request/Answer classes exist")
                 continue
             if not issubclass(t, cls):
                 probs.append(f"type_factory(R={r}) returns {t.__name__}, not a subclass of {cls.__name__}")
@@ -150,18 +153,20 @@ def c02_registry(prog):
     # decoding dispatch on the real from_bytes: class of the result for every registered code x R bit
     for code, cls in sorted(cmds.all_commands.items()):
         probs = []
-        for r in (0, 1):
-            hdr = base.MessageHeader(length=20, command_flags=0x80 if r else 0, command_code=code)
+        subs = {s.__name__: s for s in cls.__subclasses__()}
+        for flags in range(256):
+            r = flags >> 7
+            hdr = base.MessageHeader(length=20, command_flags=flags, command_code=code)
             try:
                 m = base.Message.from_bytes(hdr.as_bytes())
             except Exception as e:
                 probs.append(f"from_bytes raises {e!r}")
                 continue
-            t = cls.type_factory(base.MessageHeader(command_flags=0x80 if r else 0, command_code=code)) or cls
-            if type(m) is not t:
-                probs.append(f"R={r}: decoded as {type(m).__name__}, expected {t.__name__}")
-            if m.header.command_code != code:
-                probs.append(f"R={r}: command code {m.header.command_code}")
+            want = subs.get(cls.__name__ + ("Request" if r else "Answer"), cls)
+            if type(m) is not want:
+                probs.append(f"flags {flags:#x}: decoded as {type(m).__name__}, expected {want.__name__}")
+            if m.header.command_code != code or m.header.command_flags != flags:
+                probs.append(f"flags {flags:#x}: header code/flags {m.header.command_code}/{m.header.command_flags:#x}")
         out.append(GroundOb(f"C02.dispatch[{code}]", not probs, "; ".join(probs), witness={"code": code}))
     # unknown code -> generic class
     for code in (0, 1, 2 ** 24 - 1):
@@ -195,9 +200,14 @@ def c20_pairing(prog):
     for cls in [base.Message] + classes:
         probs = []
         name = cls.__name__
-        for flags in range(256):
-            hdr = base.MessageHeader(version=1, command_flags=flags, command_code=getattr(cls, "code", 0) or 7,
-                                     application_id=4, hop_by_hop_identifier=0xfffffffe, end_to_end_identifier=1)
+        combos = [(flags, 1, 4, 0xfffffffe, 1) for flags in range(256)]
+        for flags in (0x00, 0x40, 0x80, 0xf0):
+            for ver in (0, 1, 255):
+                for ident in (0, 1, 2 ** 31, 2 ** 32 - 1):
+                    combos.append((flags, ver, ident, ident, ident))
+        for flags, ver, app, hbh, e2e in combos:
+            hdr = base.MessageHeader(version=ver, command_flags=flags, command_code=getattr(cls, "code", 0) or 7,
+                                     application_id=app, hop_by_hop_identifier=hbh, end_to_end_identifier=e2e)
             try:
                 req = cls(hdr)
             except Exception as e:
